@@ -157,6 +157,13 @@ def gen_cases(ctx):
     for n in ([20, 40, 80, 160, 400] if quick else [20, 40, 80, 160, 400, 1000, 3000]):
         for _ in range(6):
             cases.append({'kind': 'sheet', 'input': pumping(rng, n), 'opts': opts(), 'family': 'pump'})
+    # long but flat: many terms / declarations / selectors / rules / media (no nesting at all)
+    for n in ([300, 2500] if quick else [300, 1200, 2500, 6000]):
+        for flat in ('a{b: ' + ' '.join(['1'] * n) + '}', 'a{box-shadow: ' + ','.join(['1px 1px #fff'] * n) + '}', 'a{' + ';'.join(['b:c'] * n) + '}',
+                     ','.join(['a'] * n) + '{b:c}', ' '.join(['a'] * n) + '{b:c}', 'a{b:c}' * n, '@media ' + ','.join(['tv'] * n) + '{a{b:c}}',
+                     'a{b:f(' + ','.join(['1'] * n) + ')}', 'a' + '.c' * n + '{b:c}', '@import "x.css" ' + ' and '.join(['(color)'] * n) + ';',
+                     'a{b:' + '/'.join(['1'] * n) + '}', '/*c*/' * n, 'a{color:hsl(0,' + '9' * min(n, 300) + '%,' + '9' * min(n, 300) + '%)}'):
+            cases.append({'kind': 'sheet', 'input': flat, 'opts': opts(), 'family': 'flat-long'})
     for _ in range(n_bytes):
         body = G.gen_soup(rng, 16)
         pre = rng.choice(['', '\xef\xbb\xbf', '\xff\xfe', '\xfe\xff', '@charset "utf-8";', '@charset "ascii";',
